@@ -379,7 +379,8 @@ class AsteriskToken(XPathToken):
         if self:
             op1, op2 = self.get_operands(context, cls=ArithmeticProxy)
             if op1 is None:
-                return []
+                # XPath 1.0: an empty node-set operand is converted with number()
+                return math.nan if self.parser.version == '1.0' else []
             try:
                 if isinstance(op2, (YearMonthDuration, DayTimeDuration)):
                     return op2 * op1
